@@ -45,6 +45,7 @@ type EnumCase struct {
 	Desc  bool // parameters in descending producer order
 	ErrMask int // bit i = node i fallible
 	FieldMask int // bit i = node i returns a struct that is expanded; its consumers take the field
+	PairMask int // bit i = node i returns two values; its consumers take them alternately (the first consumer the SECOND value)
 	Cons [][]int // explicit consumer lists (layered family); nil = decode Shape
 }
 
@@ -73,7 +74,7 @@ func EnumSpec(name string, cases []EnumCase, r *rand.Rand, errP float64) *Spec {
 		}
 	}
 	// shared result types: node i -> *Ni; and for expanded nodes: *Holder_i{ F_i Field_i }
-	var tids, hids, fids []int
+	var tids, hids, fids, mids []int
 	for i := 0; i < maxN; i++ {
 		b := len(s.Types)
 		s.Types = append(s.Types, &Type{ID: b, Kind: KStruct, Name: fmt.Sprintf("Node%d", i), Base: -1})
@@ -84,6 +85,9 @@ func EnumSpec(name string, cases []EnumCase, r *rand.Rand, errP float64) *Spec {
 		s.Types = append(s.Types, &Type{ID: b + 4, Kind: KPtr, Base: b + 3})
 		fids = append(fids, b+2)
 		hids = append(hids, b+4)
+		s.Types = append(s.Types, &Type{ID: b + 5, Kind: KStruct, Name: fmt.Sprintf("Mate%d", i), Base: -1})
+		s.Types = append(s.Types, &Type{ID: b + 6, Kind: KPtr, Base: b + 5})
+		mids = append(mids, b+6)
 	}
 	for ci, c := range cases {
 		cons := c.Cons
@@ -99,9 +103,17 @@ func EnumSpec(name string, cases []EnumCase, r *rand.Rand, errP float64) *Spec {
 		}
 		base := len(s.Provs)
 		var items []Item
-		out := func(i int) int { // what consumers of node i take
+		pair := func(i int) bool { return c.PairMask&(1<<i) != 0 && c.FieldMask&(1<<i) == 0 && i != c.N-1 }
+		out := func(i, j int) int { // what consumer j of node i takes
 			if c.FieldMask&(1<<i) != 0 && i != c.N-1 {
 				return fids[i]
+			}
+			if pair(i) {
+				for k, x := range cons[i] {
+					if x == j && k%2 == 0 {
+						return mids[i]
+					}
+				}
 			}
 			return tids[i]
 		}
@@ -116,8 +128,11 @@ func EnumSpec(name string, cases []EnumCase, r *rand.Rand, errP float64) *Spec {
 					ps[a], ps[b] = ps[b], ps[a]
 				}
 			}
+			if pair(j) {
+				p.Results = []int{tids[j], mids[j]}
+			}
 			for _, i := range ps {
-				p.Params = append(p.Params, out(i))
+				p.Params = append(p.Params, out(i, j))
 			}
 			p.Async = c.Mask&(1<<j) != 0
 			if c.ErrMask&(1<<j) != 0 || (errP > 0 && r.Float64() < errP) {
@@ -145,6 +160,9 @@ func EnumSpec(name string, cases []EnumCase, r *rand.Rand, errP float64) *Spec {
 		}
 		if c.FieldMask != 0 {
 			d += fmt.Sprintf("f%d", c.FieldMask)
+		}
+		if c.PairMask != 0 {
+			d += fmt.Sprintf("p%d", c.PairMask)
 		}
 		shape := fmt.Sprint(c.Shape)
 		if c.Shape < 0 {
@@ -196,6 +214,24 @@ func WithFieldVariants(cases []EnumCase, seed int64) []EnumCase {
 		m := 1 + r.Intn((1<<(c.N-1))-1)
 		v := c
 		v.FieldMask = m
+		out = append(out, v)
+	}
+	return out
+}
+
+// WithPairVariants adds, for a deterministic third of the cases, a variant in
+// which a random non-empty subset of the non-root nodes return TWO values that
+// their consumers take alternately (the first consumer the second value, the
+// next one the first, ...): completion signals per result, not per provider.
+func WithPairVariants(cases []EnumCase, seed int64) []EnumCase {
+	r := rand.New(rand.NewSource(seed))
+	out := append([]EnumCase{}, cases...)
+	for _, c := range cases {
+		if c.N < 3 || c.FieldMask != 0 || r.Intn(3) != 0 {
+			continue
+		}
+		v := c
+		v.PairMask = 1 + r.Intn((1<<(c.N-1))-1)
 		out = append(out, v)
 	}
 	return out
